@@ -108,6 +108,8 @@ type val struct {
 	desc  string
 	zero  bool // carries nothing (zero value)
 	strs  []string
+	// what the value holds in untyped (interface{}) slots; JSON family only
+	untyped untypedStats
 }
 
 func jsonVal[T any](v *T, strs ...string) val {
@@ -128,14 +130,29 @@ type EvBlob struct {
 	N    int    `json:"n"`
 }
 
+// genJSONVal draws from the whole JSON family: 16 of 100 KiB-sized blobs, of the rest 7 of 10 from the statically typed part
+// below and 3 of 10 from the part with untyped slots and unusual shapes (untyped.go). Every value is first checked to be a
+// fixed point of encoding/json itself.
 func genJSONVal(r *vlib.Rand) val {
-	if r.Chance(0.12) {
+	if r.Chance(0.16) {
+		// payloads of 1-6 KiB in sequence (buffer reuse inside a marshaler shows with held messages)
 		n := []int{0, 900, 2500, 3100, 3600, 4000, 4300, 6000}[r.Intn(8)]
 		b := EvBlob{Text: strings.Repeat(string(rune('a'+r.Intn(26))), n), N: r.Intn(1000)}
 		v := jsonVal(&b)
 		v.desc = fmt.Sprintf("*c16.EvBlob{Text: %d bytes, N: %d}", n, b.N)
 		return v
 	}
+	if r.Chance(0.3) {
+		v, us := genUntypedJSONVal(r)
+		v.untyped = us
+		return v
+	}
+	v := genTypedJSONVal(r)
+	selfCheckJSON(v.v, v.fresh)
+	return v
+}
+
+func genTypedJSONVal(r *vlib.Rand) val {
 	switch r.Intn(6) {
 	case 0:
 		s := genScalar(r)
@@ -402,11 +419,22 @@ var nameGens = []struct {
 
 type mkMarshaler func(newUUID func() string, genName func(v interface{}) string, flag bool) cqrs.CommandEventMarshaler
 
-func runCodec(e *vlib.Env, res *vlib.Result, kind string, gen func(r *vlib.Rand) val, mk mkMarshaler, byValue bool) {
-	const nVals = 64
+// strVal makes the value of the family that carries just the string s (for the corpus sweep, strings.go).
+// sized makes a value whose encoding is about n bytes long (for the size ladder).
+func runCodec(e *vlib.Env, res *vlib.Result, kind string, gen func(r *vlib.Rand) val, strVal func(r *vlib.Rand, s string) val, sized func(r *vlib.Rand, n int) val, mk mkMarshaler, byValue bool) {
+	const nRandom = 64
+	// size ladder: a fixed run of encodings that grow through the usual small-buffer limits and shrink again, marshaled back to back
+	// in the middle of the batch (all messages are held and decoded at the end): an encoder that keeps state between calls
+	// (pooled / reused / pre-sized buffers) sees grow, keep, shrink and reuse in one sequence whatever the random draws are
+	ladder := []int{900, 2500, 3100, 3600, 4000, 700, 3900, 120, 4300, 4090, 4097, 60, 9000, 1000, 0, 5000}
+	const ladderAt = 24
+	nVals := nRandom + len(ladder)
+	sw := newSweeper(e, nRandom/4)
 	var f feat
 	var sigParts []any
 	nonZero, viaCopy := 0, 0
+	var ut untypedStats
+	nUntypedNum := 0
 	var samples []any
 	// every marshaled message is also kept and decoded again after ALL values have been marshaled: the bytes handed out by
 	// Marshal belong to the message and must not change when the marshaler is used again
@@ -436,7 +464,19 @@ func runCodec(e *vlib.Env, res *vlib.Result, kind string, gen func(r *vlib.Rand)
 		res.Count("held_messages_decoded_after_all_marshals", len(held))
 	}()
 	for i := 0; i < nVals; i++ {
-		v := gen(e.R)
+		var v val
+		if i >= ladderAt && i < ladderAt+len(ladder) {
+			v = sized(e.R, ladder[i-ladderAt])
+		} else {
+			j := i
+			if i >= ladderAt {
+				j = i - len(ladder)
+			}
+			v = gen(e.R)
+			if j%4 == 0 {
+				v = strVal(e.R, sw.at(j/4))
+			}
+		}
 		for _, s := range v.strs {
 			f.addStr(s)
 		}
@@ -444,10 +484,23 @@ func runCodec(e *vlib.Env, res *vlib.Result, kind string, gen func(r *vlib.Rand)
 		if !v.zero {
 			nonZero++
 		}
+		if v.untyped.numbers > 0 {
+			nUntypedNum++
+		}
+		ut.numbers += v.untyped.numbers
+		ut.strings += v.untyped.strings
+		ut.bools += v.untyped.bools
+		ut.nils += v.untyped.nils
+		ut.maps += v.untyped.maps
+		ut.lists += v.untyped.lists
+		if v.untyped.depth >= 2 {
+			ut.depth++ // values whose untyped tree is at least 2 levels deep
+		}
 		ng := nameGens[e.R.Intn(len(nameGens))]
 		genName, ngID := ng.f, ng.id
 		if e.R.Chance(0.15) {
 			custom := genStr(e.R) // any valid UTF-8, including the empty name
+			f.addStr(custom)
 			genName = func(v interface{}) string { return custom + fmt.Sprintf("%T", v) }
 			if e.R.Chance(0.2) {
 				genName = func(v interface{}) string { return custom }
@@ -458,6 +511,7 @@ func runCodec(e *vlib.Env, res *vlib.Result, kind string, gen func(r *vlib.Rand)
 		uuid := ""
 		if e.R.Bool() {
 			uuid = e.ID() + "-" + genStr(e.R)
+			f.addStr(uuid)
 			newUUID = func() string { return uuid }
 		}
 		m := mk(newUUID, genName, e.R.Bool())
@@ -509,7 +563,11 @@ func runCodec(e *vlib.Env, res *vlib.Result, kind string, gen func(r *vlib.Rand)
 		}
 		res.Events++
 		if !v.equal(v.v, out) {
-			fail("cqrs-roundtrip", "Unmarshal(Marshal(v)) = %s differs from v (payload %s)", clip(fmt.Sprintf("%+v", reflect.ValueOf(out).Elem().Interface()), 600), showBytes(msg.Payload))
+			diff := ""
+			if byValue {
+				diff = firstDiff(reflect.ValueOf(v.v), reflect.ValueOf(out), "v") + "; "
+			}
+			fail("cqrs-roundtrip", "%sUnmarshal(Marshal(v)) = %s differs from v (payload %s)", diff, clip(fmt.Sprintf("%+v", reflect.ValueOf(out).Elem().Interface()), 600), showBytes(msg.Payload))
 			break
 		}
 		if len(samples) < 3 && !v.zero {
@@ -519,6 +577,19 @@ func runCodec(e *vlib.Env, res *vlib.Result, kind string, gen func(r *vlib.Rand)
 	res.Count("inputs", nVals)
 	res.Count("values_nonzero", nonZero)
 	res.Count("unmarshal_from_copy", viaCopy)
+	res.Count("corpus_sweep_strings", sw.used)
+	res.Count("size_ladder_values", len(ladder))
+	if byValue { // the JSON family
+		res.Count("values_with_numbers_in_untyped_slots", nUntypedNum)
+		res.Count("untyped_slot_numbers", ut.numbers)
+		res.Count("untyped_slot_strings", ut.strings)
+		res.Count("untyped_slot_bools", ut.bools)
+		res.Count("untyped_slot_nils", ut.nils)
+		res.Count("untyped_slot_maps", ut.maps)
+		res.Count("untyped_slot_lists", ut.lists)
+		res.Count("values_with_untyped_depth_ge_2", ut.depth)
+	}
+	f.report(res)
 	res.NonTrivial = res.Failed() || (nonZero > 0 && f.multibyte && f.control)
 	res.Sig = vlib.Sig(kind, sigParts)
 	if !res.Failed() {
@@ -534,19 +605,107 @@ func clip(s string, n int) string {
 }
 
 func runJSON(e *vlib.Env, res *vlib.Result) {
-	runCodec(e, res, "JSONMarshaler", genJSONVal, func(u func() string, g func(v interface{}) string, _ bool) cqrs.CommandEventMarshaler {
+	runCodec(e, res, "JSONMarshaler", genJSONVal, jsonStrVal, jsonSized, func(u func() string, g func(v interface{}) string, _ bool) cqrs.CommandEventMarshaler {
 		return cqrs.JSONMarshaler{NewUUID: u, GenerateName: g}
 	}, true)
 }
 
 func runProto(e *vlib.Env, res *vlib.Result) {
-	runCodec(e, res, "ProtoMarshaler", genProtoVal, func(u func() string, g func(v interface{}) string, _ bool) cqrs.CommandEventMarshaler {
+	runCodec(e, res, "ProtoMarshaler", genProtoVal, protoStrVal, protoSized, func(u func() string, g func(v interface{}) string, _ bool) cqrs.CommandEventMarshaler {
 		return cqrs.ProtoMarshaler{NewUUID: u, GenerateName: g}
 	}, false)
 }
 
 func runGogo(e *vlib.Env, res *vlib.Result) {
-	runCodec(e, res, "ProtobufMarshaler(gogo)", genGogoVal, func(u func() string, g func(v interface{}) string, _ bool) cqrs.CommandEventMarshaler {
+	runCodec(e, res, "ProtobufMarshaler(gogo)", genGogoVal, gogoStrVal, gogoSized, func(u func() string, g func(v interface{}) string, _ bool) cqrs.CommandEventMarshaler {
 		return cqrs.ProtobufMarshaler{NewUUID: u, GenerateName: g}
 	}, false)
+}
+
+// string carriers of the three families: the text sits in a typed string field, a map key and value, an untyped slot, a list
+func jsonStrVal(r *vlib.Rand, s string) val {
+	var v val
+	switch r.Intn(5) {
+	case 0:
+		v = jsonVal(&EvScalar{S: s, I: 1}, s)
+	case 1:
+		v = jsonVal(&EvNested{ID: s, Attrs: map[string]string{s: s}, Items: []EvItem{{Name: s}}, At: time.Unix(0, 0).UTC()}, s)
+	case 2:
+		l := &EvLoose{ID: s, Value: s, Attrs: map[string]any{s: s}, List: []any{s, []any{s}}}
+		v = jsonVal(l, s)
+		v.desc = fmt.Sprintf("%T(%s)", l, descJSON(l))
+	case 3:
+		m := map[string]any{s: s, "k": map[string]any{s: []any{s}}}
+		v = jsonVal(&m, s)
+	default:
+		v = jsonVal(&s, s) // the value is a bare string
+	}
+	selfCheckJSON(v.v, v.fresh)
+	return v
+}
+
+func protoStrVal(r *vlib.Rand, s string) val {
+	switch r.Intn(4) {
+	case 0:
+		return protoVal(wrapperspb.String(s), s)
+	case 1:
+		st, err := structpb.NewStruct(map[string]any{s: s, "l": []any{s}})
+		if err != nil {
+			panic(harnessBug("structpb.NewStruct: " + err.Error()))
+		}
+		return protoVal(st, s)
+	case 2:
+		return protoVal(&fieldmaskpb.FieldMask{Paths: []string{s, s}}, s)
+	default:
+		a, err := anypb.New(wrapperspb.String(s))
+		if err != nil {
+			panic(harnessBug("anypb.New: " + err.Error()))
+		}
+		return protoVal(a, s)
+	}
+}
+
+func gogoStrVal(r *vlib.Rand, s string) val {
+	switch r.Intn(4) {
+	case 0:
+		return gogoVal(&gogotypes.StringValue{Value: s}, s)
+	case 1:
+		return gogoVal(gogoStruct(map[string]any{s: s, "l": []any{s}}), s)
+	case 2:
+		return gogoVal(&gogotypes.FieldMask{Paths: []string{s, s}}, s)
+	default:
+		v := protoStrVal(r, s)
+		v.desc = "std:" + v.desc
+		return v
+	}
+}
+
+// values of a given encoded size (size ladder)
+func jsonSized(r *vlib.Rand, n int) val {
+	b := EvBlob{Text: strings.Repeat(string(rune('a'+r.Intn(26))), n), N: r.Intn(1000)}
+	v := jsonVal(&b)
+	v.desc = fmt.Sprintf("*c16.EvBlob{Text: %d bytes, N: %d}", n, b.N)
+	return v
+}
+
+func protoSized(r *vlib.Rand, n int) val {
+	if r.Bool() {
+		v := protoVal(wrapperspb.Bytes(r.Bytes(n)))
+		v.desc = fmt.Sprintf("*wrapperspb.BytesValue{%d bytes}", n)
+		return v
+	}
+	v := protoVal(wrapperspb.String(strings.Repeat(string(rune('a'+r.Intn(26))), n)))
+	v.desc = fmt.Sprintf("*wrapperspb.StringValue{%d bytes}", n)
+	return v
+}
+
+func gogoSized(r *vlib.Rand, n int) val {
+	if r.Bool() {
+		v := gogoVal(&gogotypes.BytesValue{Value: r.Bytes(n)})
+		v.desc = fmt.Sprintf("*types.BytesValue{%d bytes}", n)
+		return v
+	}
+	v := protoSized(r, n)
+	v.desc = "std:" + v.desc
+	return v
 }
